@@ -1,7 +1,7 @@
 import S3V.Props.C12
 /-!
-# C12 — kernel-checked counterexamples to the full statements (outside the pass/fail gate), and
-regression examples for repaired findings
+# C12 — regression examples for repaired findings (outside the pass/fail gate); no full statement
+of C12 is refuted by a counterexample at present
 
 Each witness is also a line of `corpus/path.txt` and is replayed on the real code by every run
 (`known_findings.d/path.json`).
@@ -9,7 +9,7 @@ Each witness is also a line of `corpus/path.txt` and is replayed on the real cod
 namespace S3V.C12
 open S3V S3V.Net S3V.Host S3V.Path S3V.PathSpec
 
-/-! ## open: F-path-4 — overlap is tested case-sensitively, hosts are matched case-insensitively -/
+/-! ## repaired: F-path-4 — overlap was tested case-sensitively, hosts are matched case-insensitively -/
 
 /-- `x.COM` -/
 def wUpper : Bytes := [120, 46, 67, 79, 77]
@@ -18,24 +18,17 @@ def wCom : Bytes := [99, 111, 109]
 /-- `b.x.com` -/
 def wHostBX : Bytes := [98, 46, 120, 46, 99, 111, 109]
 
-/-- `MultiDomain::new(["x.COM", "com"])` succeeds although `x.com` is a sub-domain of `com` -/
-theorem C12_counterexample_case_overlap_accepted : multiNew [wUpper, wCom] = .ok [wUpper, wCom] := rfl
+/-- `MultiDomain::new(["x.COM", "com"])` is refused now, in either order (before cf352e8 it
+    succeeded although `x.com` is a sub-domain of `com`) -/
+example : multiNew [wUpper, wCom] = .error .overlappingSubdomains := rfl
+example : multiNew [wCom, wUpper] = .error .overlappingSubdomains := rfl
 
-/-- … and the host `b.x.com` then belongs to both base domains -/
-theorem C12_counterexample_unique_match : ¬ C12_multidomain_unique_match_full := by
-  intro h
-  have := h [wUpper, wCom] [wUpper, wCom] rfl wUpper wCom wHostBX
-    ⟨wUpper, some [98]⟩ ⟨wCom, some [98, 46, 120]⟩ (by decide) (by decide) (by decide) (by decide)
-  revert this; decide
-
-/-- … so the bucket depends on the order of the configuration: `b` of `x.COM`, or `b.x` of `com` -/
-theorem C12_counterexample_order : ¬ C12_multidomain_order_independent_full := by
-  intro h
-  have := (h [wUpper, wCom] [wCom, wUpper] [wUpper, wCom] rfl (List.Perm.swap _ _ _) wHostBX).2
-  revert this; decide
-
-/-- the witness lies in the excluded region of the partial statements -/
-example : ¬ ∀ d ∈ [wUpper, wCom], toAsciiLower d = d := by decide
+/-- what made the old behaviour a defect: the host `b.x.com` belongs to both base domains — to
+    `x.COM` with bucket `b`, to `com` with bucket `b.x` — so under the old code the bucket depended
+    on the order of the configuration. The full statements that this refuted are theorems now:
+    `C12_multidomain_unique_match`, `C12_multidomain_order_independent`. -/
+example : parseHostHeader wUpper wHostBX = some ⟨wUpper, some [98]⟩ ∧
+    parseHostHeader wCom wHostBX = some ⟨wCom, some [98, 46, 120]⟩ := by decide
 
 /-! ## repaired: F-path-1 (IPv4-like names), F-path-2 (host case), F-path-3 (signed port) -/
 
